@@ -378,6 +378,12 @@ func (c *Ctx) freshVersion(rule string, fn *ssa.Function, at ssa.Instruction, v 
 			v, at = recv, call
 		}
 	}
+	// a pointer to the record kept in a local pointer variable (captured by a closure, so itself a cell): the pointer
+	if u, ok := v.(*ssa.UnOp); ok && u.Op == token.MUL {
+		if _, isPtr := u.Type().Underlying().(*types.Pointer); isPtr {
+			v = ir.Resolve(v)
+		}
+	}
 	// v is a load of (or the address of) a local record
 	var cell *ssa.Alloc
 	switch x := v.(type) {
@@ -415,7 +421,7 @@ func (c *Ctx) freshVersion(rule string, fn *ssa.Function, at ssa.Instruction, v 
 				others = append(others, in)
 				return
 			}
-			if fa, ok := st.Addr.(*ssa.FieldAddr); ok && fa.X == cellIn && ir.FieldOf(fa) == verField {
+			if fa, ok := st.Addr.(*ssa.FieldAddr); ok && (fa.X == cellIn || ir.Resolve(fa.X) == cellIn) && ir.FieldOf(fa) == verField {
 				if call, ok := ir.Resolve(st.Val).(*ssa.Call); ok && newID != nil && ir.StaticCallee(call) == newID {
 					fresh = append(fresh, in)
 				} else {
